@@ -5,7 +5,7 @@
    message). pdu_unpack fuel bs returns the decoded PDU and the number of loop iterations (ticks). *)
 From V Require Import Prelude.Base Prelude.PyInt Prelude.PySlice Prelude.PyStr gen.K_rpc gen.C_rpc.
 From V Require Import Model.Pdu Model.Request Model.RpcLoop Model.Bind Model.Verification Model.RpcDispatch Model.Epm.
-From V Require Import Proofs.RpcKernels Proofs.RpcPdu Proofs.RpcBind Proofs.RpcRoundtrip Proofs.RpcEpm Proofs.RpcExamples Proofs.RpcTotal Proofs.RpcTotalLib Proofs.RpcVerification Proofs.RpcTotalPdu.
+From V Require Import Proofs.RpcKernels Proofs.RpcPdu Proofs.RpcBind Proofs.RpcRoundtrip Proofs.RpcEpm Proofs.RpcExamples Proofs.RpcTotal Proofs.RpcTotalLib Proofs.RpcVerification Proofs.RpcTotalPdu Proofs.RpcEptMap.
 
 (* ---- padding kernels (regenerated from _bind.py / _epm.py) ---- *)
 Theorem C12_pad_bindack : forall n, k_bindack_pack_pad n = k_bindack_unpack_pad n /\
@@ -113,6 +113,16 @@ Theorem C12_rt_ept_map_result : forall m fuel, wf_ept_map_result m = true -> (le
 Proof. exact (fun m fuel H Hf => conj (ept_map_result_rt m fuel H Hf) (ept_map_result_pack_norm m)). Qed.
 Print Assumptions C12_rt_ept_map_result.
 
+(* the ept_map request: object UUID present (non-nil) / absent, any tower (0..65535 floors of known or unknown protocols, hence
+   every padding residue mod 8), entry handle present / absent, any max_towers. The tower length must fit the 4-octet
+   length field pack writes (Python raises OverflowError otherwise); wf_ept_map itself does not say so. ticks = floors *)
+Theorem C12_rt_ept_map : forall m fuel, wf_ept_map m = true -> in_range 4 (len (tower_bytes (em_tower m))) = true ->
+  (length (ept_map_pack m) <= fuel)%nat ->
+  ept_map_unpack fuel (ept_map_pack m) = Ok (ept_map_norm m, len (em_tower m))
+  /\ ept_map_pack (ept_map_norm m) = ept_map_pack m.
+Proof. exact (fun m fuel H HL Hf => conj (ept_map_rt m fuel H HL (ept_map_fuel m fuel Hf)) (ept_map_pack_norm m)). Qed.
+Print Assumptions C12_rt_ept_map.
+
 (* ---- verification trailer (_rpc/_verification.py). A command of a known class (bitmask1, pcontext, header2) packs
         from its typed fields and keeps the raw `value` octets only as a cache filled in by unpack (DESIGN.md section 2,
         "raw value cache"): the decoded command is command_norm c = same class, same typed fields, same flags,
@@ -198,3 +208,7 @@ Proof. exact example_ept_map_result. Qed.
 Example C12_example_commands : wf_commands ex_commands = true /\ length ex_commands = 4%nat /\
   forallb wf_command ex_commands = true /\ len (verification_trailer_pack ex_commands) = 87.
 Proof. exact example_commands. Qed.
+Example C12_example_ept_map : wf_ept_map ex_ept_map = true /\ in_range 4 (len (tower_bytes (em_tower ex_ept_map))) = true
+  /\ length (em_tower ex_ept_map) = 6%nat /\ len (ept_map_pack ex_ept_map) = 152
+  /\ wf_ept_map {| em_obj := None; em_tower := []; em_entry_handle := None; em_max_towers := 0 |} = true.
+Proof. exact example_ept_map. Qed.
